@@ -280,3 +280,16 @@ impl crypto::ElementHasher for PinnedPow {
         kani::any()
     }
 }
+
+//@ harness=c20__draw_integers_budget tier=thorough kind=prove cap=7200 edge :: draw_integers with more values requested than the 1000-draw budget (1001 values, domain 2048, every hash function): returns an error, never a short vector (edge: 1000 loop iterations)
+#[kani::proof]
+#[kani::unwind(1003)]
+#[kani::stub(alloc::fmt::format, no_fmt)]
+pub fn c20__draw_integers_budget() {
+    let seed: [B128; 1] = [B128::new(kani::any())];
+    let mut coin = DefaultRandomCoin::<NH<B128>>::new(&seed);
+    let res = coin.draw_integers(1001, 2048, kani::any());
+    assert!(res.is_err());
+    kani::cover!(true, "VERIF-COVER");
+    core::mem::forget(res);
+}
